@@ -339,8 +339,17 @@ def run(rep):
                         if inner not in classes:
                             continue
                         ev = tmethods.MethodEval(classes, tc)
+                        env0 = {}
+                        for prev in tc.methods[m].body:        # local definitions preceding the store (top level of the method)
+                            if prev is st:
+                                break
+                            if isinstance(prev, ast.Assign) and len(prev.targets) == 1 and isinstance(prev.targets[0], ast.Name):
+                                try:
+                                    env0[prev.targets[0].id] = ev.builder.build(prev.value, env0)
+                                except Undecided:
+                                    pass
                         try:
-                            v = ev.builder.build(st.value, {})
+                            v = ev.builder.build(st.value, env0)
                         except Undecided as ex:
                             rep.undecided("R01.d", file, f"{name}.{m}", f"{name}.{m}: sync list", str(ex), line=st.lineno)
                             continue
